@@ -112,6 +112,8 @@ impl BlockFilter {
                 info!("ckb has received stop signal, BlockFilter exit now");
                 return;
             }
+            #[cfg(feature = "verif-hooks")]
+            verif_between_blocks(block_number);
 
             let block_hash = snapshot.get_block_hash(block_number).expect("index stored");
             let header = snapshot
@@ -177,5 +179,34 @@ impl BlockFilter {
     /// Verification hook: one synchronous pass of the service's loop body.
     pub fn verif_build_filter_data(&self) {
         self.build_filter_data()
+    }
+}
+
+#[cfg(feature = "verif-hooks")]
+thread_local! {
+    static VERIF_BETWEEN_BLOCKS: std::cell::RefCell<Option<Box<dyn FnMut(u64)>>> =
+        const { std::cell::RefCell::new(None) };
+}
+
+/// Verification hook: a callback run by the builder pass of this thread before each block it
+/// handles (the chain service runs beside the builder in a node: a simulator uses the callback
+/// to let the chain move on in the middle of a pass).
+#[cfg(feature = "verif-hooks")]
+pub fn verif_set_between_blocks(callback: Option<Box<dyn FnMut(u64)>>) {
+    VERIF_BETWEEN_BLOCKS.with(|c| *c.borrow_mut() = callback);
+}
+
+#[cfg(feature = "verif-hooks")]
+fn verif_between_blocks(block_number: u64) {
+    // taken out while it runs: the callback may itself reach code that looks at the slot
+    let taken = VERIF_BETWEEN_BLOCKS.with(|c| c.borrow_mut().take());
+    if let Some(mut callback) = taken {
+        callback(block_number);
+        VERIF_BETWEEN_BLOCKS.with(|c| {
+            let mut slot = c.borrow_mut();
+            if slot.is_none() {
+                *slot = Some(callback);
+            }
+        });
     }
 }
